@@ -51,85 +51,20 @@ def natural_matrix(ctx):
     return runs
 
 
-def ops_level(ctx, pid, invariants, rnd):
-    """Model checking of the cache + export + replay jobs.  Returns (jobs, meta)."""
-    quick = ctx.quick
-    full = dict(oc.OPS_DEFAULT, QIds=[1, 2, 3, 4] if quick else [1, 2, 3, 4, 5, 6, 7, 8], MaxCalls=6)
-    ctx.cov["bounds"]["OpsCache/SpecOps"] = full
-    ctx.model_check("OpsCache", oc.cfg_text(full, oc.REPAIRED, invariants, "SpecOps", view="ViewOps"),
-                    name=f"OpsCache/SpecOps[{pid}]", required_actions=["OpsBuild", "OpsRefresh"], timeout=1500)
-    # export: exhaustive small alphabet + (quick) a seeded sample of the longer sequences
-    if quick:
-        s1, e1 = oc.export_ops(ctx, dict(full, QIds=[1, 2, 3], MaxCalls=4), name="OpsCache (export, 3 configurations, length 4)")
-        s2, e2 = oc.export_ops(ctx, dict(full, QIds=[1, 2, 3, 4], MaxCalls=6), name="OpsCache (export, 4 configurations, length 6)")
-        rnd.shuffle(s2)
-        seqs, expect = s1 + s2[:360], {**e1, **e2}
-        exhaustive = False
-        exported = len(s1) + len(s2)
-    else:
-        s1, e1 = oc.export_ops(ctx, dict(full, QIds=[1, 2, 3, 4], MaxCalls=6), name="OpsCache (export, 4 configurations, length 6)")
-        s2, e2 = oc.export_ops(ctx, dict(full, QIds=[3, 4, 5, 6, 7, 8], MaxCalls=6), name="OpsCache (export, 6 configurations, length 6)")
-        rnd.shuffle(s2)
-        seqs, expect = s1 + s2[:6000], {**e1, **e2}
-        exhaustive = False
-        exported = len(s1) + len(s2)
-    ctx.cov["behaviours_exported"] = exported
-    ctx.cov["exhaustive"] = exhaustive
-    jobs = oc.ops_jobs(seqs, expect, chunk=60 if quick else 400)
-    gen_seqs = [list(s) for (_, _, s) in seqs[:: max(1, len(seqs) // (40 if quick else 400))]]
-    gen_seqs += [[2, 6, 2, 6, 1, 6], [5, 8, 5, 1, 1, 7], [1, 1, 1], [7]]
-    jobs.append(("call", dict(module="harness.opscache", func="replay_ops_generated",
-                              args=dict(dev="bar", modes=["none", "terminals", "disabled"], seqs=gen_seqs, seed=ctx.seed))))
-    return jobs, dict(expect=expect)
-
-
-def ops_design_canaries(ctx):
-    small = dict(oc.OPS_DEFAULT, QIds=[1, 2, 3], MaxCalls=3)
-    for switch, inv in (("MMask", "FixedRowsAreIdentity"), ("MBothHalves", "RefreshEqualsRebuild"),
-                        ("MFreshLinks", "RefreshEqualsRebuild")):
-        ctx.model_check("OpsCache", oc.cfg_text(small, dict(oc.REPAIRED, **{switch: False}), [inv], "SpecOps", view="ViewOps"),
-                        name=f"OpsCache/SpecOps[mutant {switch}=FALSE, {inv}]", expect_violation=inv, count=False)
-
-
-def judge_ops_traces(ctx, pid, traces, invariants):
-    """Trace validation of the operator-level replays; every rejected trace / false clause is a violation."""
-    acc, bad, _ = oc.validate(ctx, traces, oc.REPAIRED, invariants, f"{pid} operator replays", parts=4 if ctx.quick else 8)
-    reported = 0
-    for n, tr in enumerate(traces):
-        key = f"{tr['inst']}{'' if tr['exact'] else '(generated mesh)'}/{tr['mode']}/q={[e['q'] for e in tr['ev']]}"
-        nontrivial = len({e["q"] for e in tr["ev"]}) >= 2
-        ctx.note_case((pid, key), nontrivial)
-        if n in acc and n not in bad:
-            continue
-        if reported >= 4:
-            ctx.cov["further_failing_traces_not_diagnosed"] = ctx.cov.get("further_failing_traces_not_diagnosed", 0) + 1
-            continue
-        reported += 1
-        if n in bad:
-            pos, clause = bad[n][0]
-            ctx.violation(f"{pid}:{clause}:ops:{key}",
-                          f"{pid}: the real MeshOperators reach a state where {clause} is false at call {pos - 1}: {key}",
-                          {"trace": tr, "false_clauses": bad[n]})
-        else:
-            oc.report_rejected(ctx, f"{pid}:ops", key, tr, oc.REPAIRED, invariants)
-    return acc, bad
-
-
 def run(ctx):
     rnd = random.Random(ctx.seed)
     ctx.cov["bounds"] = {}
-    # ---- 1. the cache (design) and its sharpness
-    jobs, meta = ops_level(ctx, "C10", oc.INV_OPS, rnd)
-    ops_design_canaries(ctx)
+    # ---- 1. the cache (design), its sharpness (modelled mutants), export
+    jobs = oc.ops_level(ctx, "C10", oc.INV_OPS, rnd, nsample=360 if ctx.quick else 6000)
     # ---- 2./3. real code: operator replays and natural solver runs (one process pool)
     nops = len(jobs)
     nat = natural_matrix(ctx)
     jobs += [("call", dict(module="harness.opscache", func="natural_run", args=a)) for a in nat]
     results = rf.replay_all(ctx, jobs)
     ops_traces = [t for r in results[:nops] for t in r]
-    nat_traces = results[nops:]
-    acc, bad = judge_ops_traces(ctx, "C10", ops_traces, oc.INV_OPS)
-    exact_ok = [n for n in sorted(acc) if n not in bad and ops_traces[n]["exact"] and len(ops_traces[n]["ev"]) >= 3]
+    nat, nat_traces = oc.split_aborted(ctx, nat, results[nops:])
+    good = oc.judge_ops_traces(ctx, "C10", ops_traces, oc.INV_OPS)
+    exact_ok = [n for n in good if ops_traces[n]["exact"] and len(ops_traces[n]["ev"]) >= 3]
     for n in exact_ok[:2]:
         t = ops_traces[n]
         ctx.sample({"level": "ops", "instance": t["inst"], "pinned": t["mode"], "q_sequence": [e["q"] for e in t["ev"]],
@@ -137,15 +72,14 @@ def run(ctx):
                     "laplacian_after_last_call_area_weighted": t["ev"][-1]["lap"]})
     if exact_ok:
         def corrupt_entry(tr):
-            e = tr["ev"][-1]
-            e["lap"][1][0][0] += 1
+            tr["ev"][-1]["lap"][1][0][0] += 1
             return tr
 
         def corrupt_flag(tr):
             tr["ev"][1]["lap_eq"] = False
             return tr
-        oc.canary(ctx, ops_traces[exact_ok[0]], oc.REPAIRED, oc.INV_OPS, corrupt_entry, "C10/ops stale entry")
-        oc.canary(ctx, ops_traces[exact_ok[-1]], oc.REPAIRED, oc.INV_OPS, corrupt_flag, "C10/ops unequal flag")
+        oc.in_parallel([lambda: oc.canary(ctx, ops_traces[exact_ok[0]], oc.REPAIRED, oc.INV_OPS, corrupt_entry, "C10/ops stale entry"),
+                        lambda: oc.canary(ctx, ops_traces[exact_ok[-1]], oc.REPAIRED, oc.INV_OPS, corrupt_flag, "C10/ops unequal flag")])
     elif not ctx.violations:
         raise core.MachineryFailure("C10: no operator replay was accepted")
 
@@ -160,23 +94,24 @@ def run(ctx):
     ctx.cov["mechanism_identified_by_trace_validation"] = {"MTrigger": trig if full else None}
     sb = dict(oc.STEP_DEFAULT, Vs=["zero", "none"]) if ctx.quick else dict(oc.STEP_DEFAULT, Vs=["zero", "none"], MaxSteps=4, MaxIter=2, AMax=4)
     ctx.cov["bounds"]["OpsCache/SpecStep"] = sb
-    ctx.model_check("OpsCache", oc.cfg_text(sb, mech, oc.INV_C10_STEP, "SpecStep", view="ViewStep"),
-                    name=f"OpsCache/SpecStep[C10, refresh trigger of the code under test: {trig}]",
-                    required_actions=["Ctor", "FieldStep", "TrigRefresh", "TrigSkip", "Links", "NoLinks", "Euler", "InducedStep", "Finish"],
-                    timeout=1500)
     small = dict(oc.STEP_DEFAULT, Vs=["zero"], Modes=["terminals"], MaxSteps=2)
-    ctx.model_check("OpsCache", oc.cfg_text(small, oc.PINNED, ["OperatorsMatchLatestA"], "SpecStep", view="ViewStep"),
-                    name="OpsCache/SpecStep[compare-with-previous-step trigger, OperatorsMatchLatestA]",
-                    expect_violation="OperatorsMatchLatestA", count=False)
+    thunks = [lambda: oc.model_check(ctx, sb, mech, oc.INV_C10_STEP, "SpecStep", "ViewStep",
+                                     f"OpsCache/SpecStep[C10, refresh trigger of the code under test: {trig}]",
+                                     required=["Ctor", "FieldStep", "TrigRefresh", "TrigSkip", "Links", "NoLinks", "Euler",
+                                               "InducedStep", "Finish"]),
+              lambda: ctx.model_check("OpsCache", oc.cfg_text(small, oc.PINNED, ["OperatorsMatchLatestA"], "SpecStep", view="ViewStep"),
+                                      name="OpsCache/SpecStep[compare-with-previous-step trigger must violate OperatorsMatchLatestA]",
+                                      expect_violation="OperatorsMatchLatestA", count=False)]
     if trig != "exact":
-        ctx.model_check("OpsCache", oc.cfg_text(small, oc.REPAIRED, oc.INV_C10_STEP, "SpecStep", view="ViewStep"),
-                        name="OpsCache/SpecStep[exact-change trigger (candidate repair)]", count=False)
+        thunks.append(lambda: ctx.model_check("OpsCache", oc.cfg_text(small, oc.REPAIRED, oc.INV_C10_STEP, "SpecStep", view="ViewStep"),
+                                              name="OpsCache/SpecStep[exact-change trigger (candidate repair)]", count=False))
+    oc.in_parallel(thunks)
     # every recorded run, every state: the clause itself
     acc, bad, _ = oc.validate(ctx, nat_traces, mech, oc.INV_C10_STEP, "C10 natural runs")
     for n, (a, tr) in enumerate(zip(nat, nat_traces)):
         ctx.note_case(("C10", "natural", a["label"]), any(e["ev"] in ("field", "links") for e in tr["ev"]))
         info = tr["info"]
-        if n in bad:
+        if n in acc and n in bad:
             pos, clause = bad[n][0]
             ctx.violation(f"C10:{clause}:natural:{a['label']}",
                           f"C10: real solver run '{a['label']}' ({info['sites']} sites, {info['steps']} steps, refresh trigger "
@@ -205,8 +140,8 @@ def run(ctx):
                     del tr["ev"][k]
                     return tr
             return None
-        oc.canary(ctx, nat_traces[dyn[0]], mech, oc.INV_C10_STEP, stale, "C10/natural stale flag")
-        oc.canary(ctx, nat_traces[dyn[-1]], mech, oc.INV_C10_STEP, drop_refresh, "C10/natural refresh dropped")
+        oc.in_parallel([lambda: oc.canary(ctx, nat_traces[dyn[0]], mech, oc.INV_C10_STEP, stale, "C10/natural stale flag"),
+                        lambda: oc.canary(ctx, nat_traces[dyn[-1]], mech, oc.INV_C10_STEP, drop_refresh, "C10/natural refresh dropped")])
     elif not ctx.violations:
         raise core.MachineryFailure("C10: no accepted natural run with a refresh")
     ctx.cov["rule"] = ("operator level: sequences of link configurations (fourth roots of unity, repeats and zeros included) exported "
@@ -217,3 +152,7 @@ def run(ctx):
     ctx.assume("link variables restricted to fourth roots of unity on the exact instances (A.e = q*pi/2); arbitrary real "
                "potentials only through the equal/unequal flags on the generated mesh and in the natural runs")
     ctx.assume("closeness of consecutive applied potentials is numpy.allclose with its default tolerances, as the property text says")
+
+
+def replay(ctx, path):
+    return oc.replay_file(ctx, path, sorted(set(oc.INV_OPS + oc.INV_C10_STEP)))
